@@ -10,6 +10,7 @@ CONTRACT_MODULES = [
     'contracts.matcher',
     'contracts.loader',
     'contracts.cmdline',
+    'contracts.logger',
 ]
 
 CFG = 'cfgparser.ZConfigParser.'
@@ -24,7 +25,7 @@ INFO_MATCH = ['info.SectionInfo.isAllowedName', 'info.SectionInfo.allowUnnamed',
               'info.ValueInfo.__init__', 'info.ValueInfo.convert']
 MATCHER = ['matcher.BaseMatcher.__init__', 'matcher.BaseMatcher.addValue', 'matcher.BaseMatcher.addSection',
            'matcher.SectionMatcher.__init__', 'matcher.BaseMatcher.createChildMatcher',
-           'matcher.BaseMatcher.createValue', 'matcher.SectionMatcher.createValue', 'matcher.SectionValue.__init__',
+           'matcher.BaseMatcher.finish', 'matcher.BaseMatcher.createValue', 'matcher.SectionMatcher.createValue', 'matcher.SectionValue.__init__',
            'info.KeyInfo.getdefault', 'info.MultiKeyInfo.getdefault', 'info.SectionInfo.getdefault']
 
 CMDLINE = ['cmdline.ExtendedConfigLoader.__init__', 'cmdline.ExtendedConfigLoader.addOption',
@@ -34,21 +35,31 @@ CMDLINE = ['cmdline.ExtendedConfigLoader.__init__', 'cmdline.ExtendedConfigLoade
            'cmdline.OptionBag.get_section_info', 'cmdline.OptionBag._is_type_name', 'cmdline.OptionBag.finish',
            'cmdline.MatcherMixin.set_optionbag', 'cmdline.MatcherMixin.addValue',
            'cmdline.MatcherMixin.createChildMatcher', 'cmdline.MatcherMixin.finish_optionbag',
-           'matcher.SchemaMatcher.__init__', 'loader.ConfigLoader.__init__', 'loader.ConfigLoader.createSchemaMatcher']
+           'matcher.SchemaMatcher.__init__', 'loader.ConfigLoader.__init__', 'loader.ConfigLoader.createSchemaMatcher',
+           'cmdline.ExtendedSectionMatcher.finish', 'cmdline.ExtendedSchemaMatcher.finish']
+
+LOADER_CFG = ['loader.ConfigLoader.__init__', 'loader.ConfigLoader.loadResource', 'loader.ConfigLoader.createSchemaMatcher',
+              'loader.ConfigLoader.startSection', 'loader.ConfigLoader.endSection',
+              'loader.ConfigLoader.includeConfiguration', 'loader.ConfigLoader._parse_resource']
 
 PROPS = {
-    'C01': {'functions': INFO_MATCH + MATCHER, 'standin': True},
-    'C02': {'functions': ['info.ValueInfo.convert'] + MATCHER, 'standin': True},
+    'C01': {'functions': INFO_MATCH + MATCHER + LOADER_CFG, 'standin': True},
+    'C02': {'functions': ['info.ValueInfo.convert', 'matcher.SchemaMatcher.__init__', 'matcher.SchemaMatcher.finish'] + MATCHER,
+            'standin': True},
     'C03': {'functions': CFG_ALL,
             'rx': ['rx:cfgparser._keyvalue_rx', 'rx:cfgparser._section_start_rx'], 'standin': True},
     'C04': {'functions': ['substitution._split', 'substitution.substitute', 'substitution.isname'],
             'rx': ['rx:substitution._name_re'], 'standin': True},
     'C05': {'functions': [CFG + '__init__', CFG + 'handle_define', CFG + 'replace', CFG + 'handle_include',
-                          CFG + 'handle_directive', 'substitution.substitute'],
+                          CFG + 'handle_directive', 'substitution.substitute', 'loader.ConfigLoader.loadResource',
+                          'loader.ConfigLoader._parse_resource', 'loader.ConfigLoader.includeConfiguration'],
             'rx': ['rx:substitution._name_re'], 'standin': True},
-    'C06': {'functions': [CFG + '__init__', CFG + 'parse', CFG + 'handle_include', CFG + 'end_section'],
+    'C06': {'functions': [CFG + '__init__', CFG + 'parse', CFG + 'handle_include', CFG + 'end_section',
+                          'loader.ConfigLoader.includeConfiguration', 'loader.ConfigLoader._parse_resource',
+                          'loader.BaseLoader.normalizeURL', 'loader.BaseLoader.openResource'],
             'standin': True},
-    'C07': {'functions': CFG_ALL + ['substitution.substitute', 'substitution._split', 'info.ValueInfo.convert'] + CMDLINE,
+    'C07': {'functions': CFG_ALL + ['substitution.substitute', 'substitution._split', 'info.ValueInfo.convert'] + CMDLINE + LOADER_CFG +
+            ['loader.BaseLoader.openResource', 'loader.BaseLoader.loadURL', 'loader.BaseLoader.loadFile', 'loader.BaseLoader._raise_open_error'],
             'standin': True},
     'C08': {'functions': [CFG + n for n in ('error', 'replace', 'handle_key_value', 'handle_define',
                                             'start_section', 'end_section', 'nextline')]
@@ -66,16 +77,18 @@ PROPS = {
     'C11': {'functions': [], 'standin': True},
     'C12': {'functions': ['info.SectionType.getsectioninfo', 'info.AbstractType.getsubtype',
                           'info.AbstractType.hassubtype', 'info.AbstractType.isabstract',
-                          'info.SectionType.isabstract', 'info.SectionType.gettype'], 'standin': True},
+                          'info.SectionType.isabstract', 'info.SectionType.gettype', 'loader.ConfigLoader.startSection',
+                          CFG + 'handle_import'], 'standin': True},
     # frame and ownership obligations of every function of a load that touches schema objects: the
     # modifies clauses name only matcher / loader state, results are fresh containers
-    'C13': {'functions': INFO_MATCH + MATCHER, 'standin': True},
+    'C13': {'functions': INFO_MATCH + MATCHER + LOADER_CFG, 'standin': True},
     'C14': {'functions': CMDLINE, 'standin': True},
     'C15': {'functions': [CFG + n for n in ('_normalize_case', 'nextline', 'start_section', 'end_section',
                                             'parse', 'handle_define')], 'standin': True},
     'C16': {'functions': ['loader.CompositeHandler.__init__', 'loader.CompositeHandler.__call__',
                           'loader.CompositeHandler.__len__', 'matcher.BaseMatcher.__init__',
-                          'matcher.SectionMatcher.__init__', 'matcher.BaseMatcher.createChildMatcher'],
+                          'matcher.SectionMatcher.__init__', 'matcher.BaseMatcher.createChildMatcher',
+                          'matcher.SchemaMatcher.__init__', 'matcher.SchemaMatcher.finish', 'loader.ConfigLoader.loadResource'],
             'bind': ['bind:handlers'], 'standin': True},
     'C17': {'functions': [], 'standin': True},
     'C18': {'functions': ['loader.BaseLoader.isPath', 'loader.BaseLoader.normalizeURL', 'loader._url_from_file',
@@ -84,8 +97,14 @@ PROPS = {
     'C19': {'functions': ['loader.Resource.__init__', 'loader.Resource.close', 'loader.Resource.__enter__',
                           'loader.Resource.__exit__', 'loader.BaseLoader.createResource',
                           'loader.BaseLoader.openResource', 'loader.BaseLoader._raise_open_error',
-                          'loader.BaseLoader.loadURL', 'loader.BaseLoader.loadFile'], 'standin': True},
-    'C20': {'functions': [], 'standin': True},
+                          'loader.BaseLoader.loadURL', 'loader.BaseLoader.loadFile', 'loader.ConfigLoader.loadResource',
+                          'loader.ConfigLoader.includeConfiguration', 'loader.ConfigLoader._parse_resource',
+                          CFG + 'parse', CFG + 'handle_include', CFG + 'handle_import', CFG + 'handle_directive'],
+            'standin': True},
+    'C20': {'functions': ['components.logger.datatypes.logging_level', 'components.logger.factory.Factory.__init__',
+                          'components.logger.factory.Factory.__call__',
+                          'components.logger.handlers.HandlerFactory.__init__',
+                          'components.logger.handlers.FileHandlerFactory.__init__'], 'standin': True},
 }
 
 
@@ -113,6 +132,19 @@ def _with_env(env, args):
 SUBST_ALPHA = ['$', '{', '}', '(', ')', 'a', 'B', '_', '1', '-']
 
 NATIVE = {
+    'components.logger.datatypes.logging_level': {
+        'call': lambda value: __import__('ZConfig.components.logger.datatypes', fromlist=['x']).logging_level(value),
+        'domain': {'value': ('choice', ['critical', 'FATAL', 'Error', 'warn', 'warning', 'info', 'blather', 'debug', 'trace',
+                                        'all', 'notset', '0', '50', '51', '-1', '100', '7', 'x', '', ' 5'])},
+    },
+    'datatypes.asBoolean': {
+        'call': lambda s: __import__('ZConfig.datatypes', fromlist=['x']).asBoolean(s),
+        'domain': {'s': ('choice', ['yes', 'Yes', 'TRUE', 'on', 'no', 'False', 'OFF', 'y', 'n', '1', '0', '', 'onn', 't'])},
+    },
+    'datatypes.integer': {
+        'call': lambda value: __import__('ZConfig.datatypes', fromlist=['x']).integer(value),
+        'domain': {'value': ('choice', ['0', '12', '-3', ' 4 ', 'x', '', '1_0', '1.0'])},
+    },
     'substitution._split': {
         'call': lambda s: __import__('ZConfig.substitution').substitution._split(s),
         'domain': {'s': ('str', SUBST_ALPHA, 5)},
